@@ -437,11 +437,12 @@ fn legacy_uuid_of(n: u64) -> String {
     format!("00000000000040008000{:012x}", 0xeee000u64 + n)
 }
 
-const PRICE_MANTS: [u128; 14] = [1, 2, 3, 5, 10, 4, 7, 15, 25, 99, 100, 125, 1000, 12345];
+const PRICE_MANTS: [u128; 17] = [1, 2, 3, 5, 10, 4, 7, 15, 25, 99, 100, 125, 1000, 12345, 123456789, 1234567890123456789, 99999999999999999999];
 const LOTS: [u128; 14] = [1, 2, 3, 5, 10, 4, 20, 50, 100, 1000, 1_000_000, 1_000_000_000_000, 18_446_744_073_709_551_615, 39_614_081_257_132_168_796_771_975_167];
 
 fn price_string(w: u32, w2: u32, precision: u32) -> String {
-    let m = PRICE_MANTS[weighted(w, &[16, 14, 10, 10, 10, 6, 6, 6, 5, 4, 4, 4, 3, 2])];
+    // the last three carry 9, 19 and 20 significant digits
+    let m = PRICE_MANTS[weighted(w, &[16, 14, 10, 10, 10, 6, 6, 6, 5, 4, 4, 4, 3, 2, 2, 1, 1])];
     // mostly few decimals; one time in five the whole configured precision is in play
     let maxd = if pick(w2.rotate_left(21), 5) == 4 { precision } else { precision.min(4) };
     let d = pick(w2, (maxd + 1) as usize) as u32;
@@ -482,7 +483,7 @@ fn price_string(w: u32, w2: u32, precision: u32) -> String {
 
 fn size_of(w: u32, increment: u128) -> u128 {
     // the last two: 2^64 - 1 lots, and a size just below 2^95 whatever the increment
-    let raw = match weighted(w, &[14, 14, 10, 10, 12, 8, 8, 6, 8, 5, 3, 2, 1, 1]) {
+    let raw = match weighted(w, &[14, 14, 10, 10, 12, 8, 8, 6, 8, 5, 3, 3, 2, 2]) {
         13 => (LOTS[13] / increment.max(1)).max(1).saturating_mul(increment),
         i => LOTS[i].saturating_mul(increment),
     };
